@@ -71,6 +71,10 @@ PROPS = {
                 assumptions=["the expected view of the other version comes from the R-PER decoder run with the other version's schema"]),
     "C04": dict(ZOO, level="fault_enumeration", variants={"quick": ["checked"], "thorough": ["checked", "wrapping"]}, shards={"quick": 16, "thorough": 16},
                 assumptions=["allocation bound: largest request and peak live bytes <= 64 MiB + 4096 x input octets", "'never hangs' = every batch finishes within the watchdog; a firing watchdog is repeated in isolation before it counts"]),
+    "C17": dict(ZOO, level="exploration", variants={"quick": ["checked"], "thorough": ["checked", "wrapping"]}, shards={"quick": 16, "thorough": 16},
+                assumptions=["protobuf equality is judged on abstract values: identical except that an absent OPTIONAL equals a present value that is the Rust Default of its type"]),
+    "C18": dict(ZOO, level="exploration", variants={"quick": ["checked"], "thorough": ["checked"]}, shards={"quick": 16, "thorough": 16},
+                assumptions=["the independent decoder follows the proto3 language guide and encoding document; BIT STRING uses asn1rs's documented bytes+length convention; top-level ENUMERATED values are bare varints and are not judged"]),
     "C19": dict(ZOO, level="exploration", variants={"quick": ["checked", "ddesc"], "thorough": ["checked", "ddesc"]}, shards={"quick": 16, "thorough": 16},
                 assumptions=["both builds are produced from the same generated sources; only the asn1rs feature descriptive-deserialize-errors differs"]),
     "C06": dict(ZOO, level="exploration", variants={"quick": ["checked"], "thorough": ["checked", "wrapping"]}, shards={"quick": 16, "thorough": 16},
